@@ -783,7 +783,7 @@ func (x *Exec) applyContract(s *State, c *Contract, call *ssa.CallCommon, args [
 func freshArgs(e spec.Expr, out []spec.Expr) []spec.Expr {
 	switch e := e.(type) {
 	case *spec.Call:
-		if id, ok := e.Fun.(*spec.Ident); ok && id.Name == "fresh" && len(e.Args) == 1 {
+		if id, ok := e.Fun.(*spec.Ident); ok && (id.Name == "fresh" || id.Name == "live") && len(e.Args) == 1 {
 			return append(out, e.Args[0])
 		}
 		for _, a := range e.Args {
